@@ -120,7 +120,11 @@ int wrapped_main(int argc, char *argv[])
 	   * format.  This option is mainly for regression testing.
 	   */
 	  if (!internal_dump_all_dialects(optarg))
-	    return 1;
+	    {
+	      fprintf(stderr, "failed to write the token maps to %s\n",
+		      0 == strcmp(optarg, "-") ? "the standard output" : optarg);
+	      return 1;
+	    }
 	  return 0;
 
 	case 'h':
